@@ -104,3 +104,11 @@ claim("C13",
       "(every line sees earlier assignments). Correspondence: generated 1-3 line programs (existing / new field, new nest, value expressions, "
       "backticks, inplace or not, repeated labels incl. the flat-index-equals-index corner) vs the same program run by plain pandas on the flat table.",
       NOTE, "Coq proof (positional assignment and program/flat commutation) + correspondence check against plain pandas", "DESIGN.md 6/C13")
+claim("C18",
+      "Theorems (Props/C18.v), partial by design: in a typed model (class of the table, dtype class of every column, effect of every kind of operation read off "
+      "the code) EVERY chain of operations of ANY depth from a closed frame ends in a closed frame; the listing is a dtype scan; concatenating UNEQUAL nested "
+      "dtypes degrades to object (the property's restriction is necessary); the unrepaired from_lists is refuted (fixed). That pandas builds derived frames "
+      "through _constructor and keeps equal extension dtypes on concat is a contract. Correspondence: all chains of depth 1, all pairs starting with an operation "
+      "that re-creates or empties the frame, sampled other pairs (thorough: all pairs, 1500 triples, random to depth 8) over 32 operations; after every step class, "
+      "dtypes, listings, dotted access and a nested query on the result; the model must predict every observed typing.",
+      NOTE, "Coq proof (typed closure model, induction over chains) + exhaustive-to-depth correspondence check", "DESIGN.md 6/C18")
